@@ -68,7 +68,7 @@ def bad_events(evs):
 
 
 def run(c):
-    c.tlc_expect_clean("Gombok", "MCGombok")
+    c.tlc_expect_clean("MCGombok", "MCGombok")
     rng = random.Random(c.seed)
     sc = G.Scratch(c)
     try:
@@ -111,7 +111,7 @@ def run(c):
         with open(out, "w") as fh:
             for e in allev:
                 e["tr"] = tr
-                if e["e"] != "JsonDetail":
+                if e["e"] not in ("JsonDetail", "Op"):
                     tr += 1
                 fh.write(json.dumps(e) + "\n")
         structs = [e for e in allev if e["e"] == "Struct"]
@@ -119,6 +119,8 @@ def run(c):
         c.cov["distinct_nontrivial"] = len([e for e in structs if e["active"] >= 2])
         kinds = sorted({(f["kind"], f["vis"]) for e in structs for f in e["fields"]})
         c.extra["structs"] = len(structs)
+        c.extra["api_calls_checked_by_spec"] = sum(e.get("ops", 0) for e in structs)
+        c.cov["evaluations"] += c.extra["api_calls_checked_by_spec"]
         c.extra["kind_x_visibility"] = len(kinds)
         c.extra["field_counts"] = sorted({e["nf"] for e in structs})
         c.cov["rule"] = ("one case = one @fp.Value struct declaration run through the gombok of the working tree and driven with 25 "
@@ -135,6 +137,11 @@ def run(c):
                 shapes = [sh] if sh else ev.get("shapes") or by_pkg.get(ev.get("pkg"), [])
                 c.report(key, dict(shapes=shapes), "gombok output for struct %s fails at stage %s: %s" % (
                     sh["name"] + " " + fields_text(sh) if sh else ev.get("pkg"), what[0], ev.get("msg", "")[-300:].replace("\n", " | ")))
+            elif ev["e"] == "Op":
+                sh = shape_of.get(ev["struct"])
+                c.report("C07:op:%s" % ev["op"], dict(shapes=[sh] if sh else []),
+                         "struct %s %s: %s(field %d, %s) on %s gives %s - not what Gombok!Expected computes" % (
+                             ev["struct"], fields_text(sh) if sh else "", ev["op"], ev["i"], ev["v"][:60], ev["x"], ev["y"]))
             else:
                 sh = shape_of.get(ev["name"])
                 bad = [k for k, v in ev["law"].items() if not v and (k not in ("json", "jsontwin") or ev["json"])]
